@@ -408,6 +408,10 @@ fn c02(seed: u64, case: u64, out: &Out) {
     let hits = PAUSE_HITS.load(Ordering::SeqCst);
     let obs = jobj! {"joins" => rs.len(), "joins_issued_before_task_finished" => early, "worst_latency_after_finish_ms" => worst / 1_000_000, "pause_hook_hits" => hits, "joins_on_tasks_that_never_finished(not judged)" => unfinished, "wall_ms" => t0.elapsed().as_millis() as u64};
     let fp = format!("{loops}|{joiners}|{per}|{forced}");
+    if viol.as_ref().is_some_and(|v| v.0.starts_with("join-not-prompt") || v.0.starts_with("join-timed-out")) && wl_core::overloaded() {
+        out.end(case, Verdict::Inconclusive, "machine-overloaded-during-timing-case", false, &fp, obs, &viol.map(|v| v.1).unwrap_or_default());
+        return;
+    }
     match viol {
         Some((k, d)) => out.end(case, Verdict::Violated, &format!("C02/{k}"), true, &fp, obs, &d),
         None => out.end(case, Verdict::Held, "", early > 0 || hits > 0, &fp, obs, ""),
@@ -420,8 +424,8 @@ fn c15(seed: u64, case: u64, out: &Out) {
     use open_coroutine_core::syscall as oc;
     let mut rng = Rng::for_case(seed ^ 0xC15, case);
     let scenario = case % 3; // 0: N sleepers, 1: N tasks parked in a hooked socket read with a timeout, 2: late arrival while a long sleeper is parked
-    let n = *rng.pick(&[6usize, 8, 16, 32]);
-    let d_ms: u64 = *rng.pick(&[20u64, 200]);
+    let n = *rng.pick(&[8usize, 16, 32]);
+    let d_ms: u64 = *rng.pick(&[100u64, 200]);
     out.begin(case, jobj! {"scenario" => ["N tasks in hooked usleep/nanosleep + one computing sibling", "N tasks parked in a hooked recv (SO_RCVTIMEO) + one computing sibling", "a task submitted while the only worker is parked in a long hooked sleep"][scenario as usize],
         "tasks" => n, "each_blocks_ms" => d_ms});
     init(1, n + 8, 0, 0);
@@ -455,7 +459,7 @@ fn c15(seed: u64, case: u64, out: &Out) {
         obs = jobj! {"late_task_latency_ms" => lat, "long_sleeper_ms" => long_ms};
         if !matches!(rb, Ok(Ok(Some(2)))) {
             viol = Some(("late-task-did-not-finish".into(), format!("{rb:?} after {lat} ms")));
-        } else if lat > 650 {
+        } else if lat > 650 + 20 * (wl_core::sched_noise_ns() / 1_000_000) {
             viol = Some(("late-task-waited-for-parked-sibling".into(), format!("a 50 ms task took {lat} ms while the only other worker was parked in a {long_ms} ms hooked sleep")));
         }
         std::mem::forget(ha);
@@ -511,12 +515,13 @@ fn c15(seed: u64, case: u64, out: &Out) {
         let total_ms = t_sub.elapsed().as_millis() as u64;
         let p_during = progress.load(Ordering::SeqCst) - p_before;
         stop_sibling.store(true, Ordering::SeqCst);
-        let bound = (2 * d_ms).max(d_ms + 300);
-        obs = jobj! {"all_done_after_ms" => total_ms, "bound_ms" => bound, "serial_execution_would_need_ms" => n as u64 * d_ms, "sibling_progress_steps_meanwhile" => p_during, "finished" => done.load(Ordering::SeqCst)};
+        let noise_ms = wl_core::sched_noise_ns() / 1_000_000;
+        let bound = (2 * d_ms).max(d_ms + 300 + 20 * noise_ms);
+        obs = jobj! {"native_1ms_sleep_overshoot_ms" => noise_ms, "all_done_after_ms" => total_ms, "bound_ms" => bound, "serial_execution_would_need_ms" => n as u64 * d_ms, "sibling_progress_steps_meanwhile" => p_during, "finished" => done.load(Ordering::SeqCst)};
         nontrivial = n as u64 * d_ms > 2 * bound;
         if done.load(Ordering::SeqCst) < n {
             viol = Some(("blocked-tasks-never-finished".into(), format!("{} of {n} finished within {} ms", done.load(Ordering::SeqCst), limit.as_millis())));
-        } else if total_ms > bound && n as u64 * d_ms > 2 * bound {
+        } else if total_ms > bound.max(n as u64 * d_ms / 2) {
             viol = Some(("blocked-coroutines-ran-one-after-another".into(), format!("{n} tasks blocking {d_ms} ms each finished after {total_ms} ms (bound {bound} ms, serial {} ms)", n as u64 * d_ms)));
         } else if p_during < 5 {
             viol = Some(("sibling-starved-while-others-blocked".into(), format!("the computing sibling made {p_during} steps in {total_ms} ms")));
@@ -530,6 +535,10 @@ fn c15(seed: u64, case: u64, out: &Out) {
         }
     }
     let fp = format!("{scenario}|{n}|{d_ms}");
+    if viol.is_some() && wl_core::overloaded() {
+        out.end(case, Verdict::Inconclusive, "machine-overloaded-during-timing-case", false, &fp, obs, &viol.map(|v| v.1).unwrap_or_default());
+        return;
+    }
     match viol {
         Some((k, d)) => out.end(case, Verdict::Violated, &format!("C15/{k}"), true, &fp, obs, &d),
         None => out.end(case, Verdict::Held, "", nontrivial, &fp, obs, ""),
@@ -702,6 +711,10 @@ fn c20(seed: u64, case: u64, out: &Out) {
         "resume_events_with_unknown_token" => evs.iter().filter(|e| e.1 == 0).count()};
     let fp = format!("{waiters}|{rounds}|{write_interest}|{never_ready}");
     std::mem::forget(hs);
+    if viol.as_ref().is_some_and(|v| v.0.starts_with("readiness-did-not-wake") || v.0.starts_with("waiter-never-returned")) && wl_core::overloaded() {
+        out.end(case, Verdict::Inconclusive, "machine-overloaded-during-timing-case", false, &fp, obs, &viol.map(|v| v.1).unwrap_or_default());
+        return;
+    }
     match viol {
         Some((k, d)) => out.end(case, Verdict::Violated, &format!("C20/{k}"), true, &fp, obs, &d),
         None => out.end(case, Verdict::Held, "", woken_by_event > 0, &fp, obs, ""),
